@@ -4,7 +4,7 @@ from __future__ import annotations
 import ast
 
 from ..nf import to_nf, NFUnsupported
-from ..astutil import (inline_single_defs, call_name, calls_in, const_value, find_func, is_self_attr, names_in, parse_expr, parse_stmt,
+from ..astutil import (inline_single_defs, oriented, call_name, calls_in, const_value, find_func, is_self_attr, names_in, parse_expr, parse_stmt,
                        replace_node)
 from ..cfg import CFG
 from ..frontend import AnalysisError, walk_function, walk_stmts
@@ -389,8 +389,10 @@ def _r5(ctx):
               for k in s_.value.keywords if isinstance(k.value, ast.Name)} | {"load_max_seen"}
     gtest = inline_single_defs(pa.node, g.test, keep=passed) if isinstance(g, ast.If) else None
     uval = inline_single_defs(pa.node, u.value, keep=passed)
-    ok = isinstance(g, ast.If) and u in g.body and isinstance(gtest, ast.Compare) and isinstance(gtest.ops[0], ast.Gt) and \
-        norm_text(gtest.left) == norm_text(uval) and "load_max_seen" in names_in(gtest.comparators[0]) and \
+    # orientation-free: max (+eps) < |x|
+    og = oriented(gtest) if isinstance(gtest, ast.Compare) and len(gtest.ops) == 1 else None
+    ok = isinstance(g, ast.If) and u in g.body and og is not None and isinstance(og.ops[0], ast.Lt) and \
+        norm_text(og.comparators[0]) == norm_text(uval) and "load_max_seen" in names_in(og.left) and \
         isinstance(uval, ast.Call) and call_name(uval) in ("np.abs", "abs")
     if ok:
         ctx.holds(pa, u, "guarded maximum: load_max_seen = |x| only if |x| > load_max_seen (+eps) of the same x")
